@@ -127,3 +127,41 @@ func seqEnum(alphabet []int, maxLen int, emit func(seq []int)) {
 	}
 	rec(nil)
 }
+
+// withDecor wraps an emit function: every `every`-th case that carries a document is emitted
+// twice more, pretty-printed and with comments between its blocks (see ora.Decorate). The
+// oracles read the parsed input, so they apply unchanged; real pages are indented and commented,
+// the generated ones are not.
+func withDecor(every int, emit func(*eng.Case)) func(*eng.Case) {
+	i := 0
+	return func(c *eng.Case) {
+		emit(c)
+		if c.Get("decor") != "" {
+			return
+		}
+		i++
+		if i%every != 0 {
+			return
+		}
+		for _, how := range []string{"pretty", "comments"} {
+			c2 := *c
+			c2.P = map[string]string{}
+			for k, v := range c.P {
+				c2.P[k] = v
+			}
+			c2.P["decor"] = how // "doc" stays as it is: some oracles read their parameters from it
+			emit(&c2)
+		}
+	}
+}
+
+func decorBound(tier string) string {
+	return fmt.Sprintf("every %dth case of the check's own space is executed twice more: pretty-printed, and with comments between its blocks", decorEvery(tier))
+}
+
+func decorEvery(tier string) int {
+	if tier == "thorough" {
+		return 4
+	}
+	return 10
+}
